@@ -70,7 +70,7 @@ def validate(sessions, work, want, res):
     return verdicts
 
 
-def solve_sessions(sessions, repo, work, res):
+def solve_sessions(sessions, repo, work, res, long_budget=240.0):
     """C11, last clause: every emitted game is solved or reported as having no solution.
     The games go through the solver flow (hooks, Trace_Solver) in the batch runner's order:
     pruned first, unpruned only if the pruned solve did not fail."""
@@ -90,6 +90,20 @@ def solve_sessions(sessions, repo, work, res):
                        "board": s["board"], "probs": s["probs"], "game": name, "budget": 8.0})
     sf.record(ss, repo, budget=8.0)
     verdicts, st = sf.validate(ss, work, timeout=6 * 3600)
+    # A timeout on a game whose conditioned game IS stopping must be decisive: such a solve
+    # terminates, possibly after very many sweeps (robot failure 0.9 needs ~40000).  Re-run
+    # those alone with a long budget before believing the timeout.
+    slow = [s for s in ss if any(c.startswith("C06.Timeout") for c in verdicts[s["tid"]]["fails"])]
+    if slow:
+        res.notes["C11.rerun_with_long_budget"] = len(slow)
+        for s in slow:
+            s["budget"] = long_budget
+            s.pop("events", None)
+        sf.record(slow, repo, budget=long_budget)
+        v2, st2 = sf.validate(slow, work, timeout=6 * 3600)
+        verdicts.update(v2)
+        st["distinct"] += st2["distinct"]
+        st["generated"] += st2["generated"]
     res.coverage["states"] += st["distinct"]
     res.coverage["transitions"] += st["generated"]
     res.notes["C11.solver_sessions"] = len(ss)
@@ -130,7 +144,11 @@ def run(prop, tier, seed, repo):
         t2 = time.time()
         verdicts = validate(sessions, work, prop, res)
         if prop == "C11":
-            solve_sessions(sessions, repo, work, res)
+            solve_sessions(sessions, repo, work, res, 240.0 if tier == "quick" else 1800.0)
+            # accepted parameter sets through the generator's own command line
+            from . import c15_boards
+            gs, nev, _ = c15_boards.run_flow("C11", tier, seed, repo, res, work, ("C11.",))
+            res.notes["C11.command_line_events"] = nev
         distinct = set()
         for s in sessions:
             v = verdicts.get(s["tid"])
